@@ -1,4 +1,5 @@
 import TantivyModel.Model.WriterSpec
+import TantivyModel.Gen.WriterGuards
 /-
 Implementation-level model of tantivy's index writer (property C02; shared vocabulary for
 C04/C10/C17/C18): the *mechanism* of `src/indexer/*`, as a state machine whose internal
@@ -42,6 +43,11 @@ structure Seg (α : Type) where
   id : Nat
   docs : List (SDoc α)
   cursor : Nat
+  /-- `SegmentMeta::delete_opstamp()`: the target of the last `advance_deletes` that found new
+  deletes (`None` for a segment that never had a delete file) -/
+  delOp : Option Nat := none
+  /-- `SegmentMeta::num_deleted_docs()`: the deletes recorded in the delete file -/
+  metaDead : Nat := 0
 
 /-- one indexing worker: its own delete cursor and the segment it is building, if any -/
 structure Worker (α : Type) where
@@ -119,9 +125,28 @@ def history {α : Type} (es : List (Event α)) : List (Op α) := es.filterMap Ev
 section
 variable {α : Type}
 
+/-- a comparison of two opstamps as the extractor found it in the source
+(`Gen/WriterGuards.lean`: 0 `<`, 1 `<=`, 2 `>`, 3 `>=`) -/
+def cmpCode (code a b : Nat) : Bool :=
+  match code with
+  | 0 => decide (a < b)
+  | 1 => decide (a ≤ b)
+  | 2 => decide (b < a)
+  | 3 => decide (b ≤ a)
+  | _ => false
+
+/-- `doc_opstamp < delete_opstamp` of `DocToOpstampMapping::is_deleted`, as extracted -/
+def isDeletedGuard (docOp delOp : Nat) : Bool := cmpCode Gen.IS_DELETED_CMP docOp delOp
+/-- `delete_op.opstamp > target_opstamp` (the `break` of `compute_deleted_bitset`), as extracted -/
+def breakGuard (delOp target : Nat) : Bool := cmpCode Gen.COMPUTE_DELETED_BREAK_CMP delOp target
+/-- `operation.opstamp < target_opstamp` of `DeleteCursor::is_behind_opstamp`, as extracted -/
+def behindGuard (delOp target : Nat) : Bool := cmpCode Gen.SKIP_TO_CMP delOp target
+/-- `delete_operation.opstamp < committed_opstamp` of `SegmentUpdater::end_merge`, as extracted -/
+def catchUpGuard (delOp committedOpstamp : Nat) : Bool := cmpCode Gen.END_MERGE_CATCHUP_CMP delOp committedOpstamp
+
 /-- `DocToOpstampMapping::is_deleted` (`withMap = false` is `DocToOpstampMapping::None`) -/
 def isDeleted (withMap : Bool) (docOp delOp : Nat) : Bool :=
-  if withMap then decide (docOp < delOp) else true
+  if withMap then isDeletedGuard docOp delOp else true
 
 /-- the body of the loop of `compute_deleted_bitset` for one delete operation -/
 def kill (withMap : Bool) (del : DelOp α) (docs : List (SDoc α)) : List (SDoc α) :=
@@ -132,12 +157,12 @@ def consume (withMap : Bool) (target : Nat) :
     List (DelOp α) → List (SDoc α) → Nat → List (SDoc α) × Nat
   | [], docs, c => (docs, c)
   | del :: rest, docs, c =>
-    if del.op > target then (docs, c) else consume withMap target rest (kill withMap del docs) (c + 1)
+    if breakGuard del.op target then (docs, c) else consume withMap target rest (kill withMap del docs) (c + 1)
 
 /-- `DeleteCursor::skip_to` on the part of the queue at and after the cursor -/
 def skipTo (target : Nat) : List (DelOp α) → Nat → Nat
   | [], c => c
-  | del :: rest, c => if del.op < target then skipTo target rest (c + 1) else c
+  | del :: rest, c => if behindGuard del.op target then skipTo target rest (c + 1) else c
 
 def maxOp (docs : List (SDoc α)) : Nat := docs.foldl (fun m d => max m d.op) 0
 
@@ -145,10 +170,22 @@ def maxOp (docs : List (SDoc α)) : Nat := docs.foldl (fun m d => max m d.op) 0
 the flushed part -/
 def flushAt (s : WState α) (c : Nat) : Nat := if s.flushed ≤ c then s.log.length else s.flushed
 
-/-- `advance_deletes(segment, entry, target)` -/
+/-- the core of `advance_deletes(segment, entry, target)`: `compute_deleted_bitset` from the
+entry's cursor, without per-document opstamps -/
 def advance (log : List (DelOp α)) (target : Nat) (sg : Seg α) : Seg α :=
   let r := consume false target (log.drop sg.cursor) sg.docs sg.cursor
   { sg with docs := r.1, cursor := r.2 }
+
+def deadCount (docs : List (SDoc α)) : Nat := (docs.filter (fun d => !d.alive)).length
+
+/-- `advance_deletes(segment, entry, target)` with its bookkeeping: "We are already up-to-date
+here" when the delete file of the segment was written for this very target (then NOTHING happens:
+the cursor stays); otherwise the core, and if there are more deleted documents than the delete
+file records, a new delete file for `target` -/
+def advanceDeletes (log : List (DelOp α)) (target : Nat) (sg : Seg α) : Seg α :=
+  if sg.delOp = some target then sg else
+  let a := advance log target sg
+  if deadCount a.docs > sg.metaDead then { a with delOp := some target, metaDead := deadCount a.docs } else a
 
 /-- `apply_deletes` at the end of `index_documents` -/
 def finalize (log : List (DelOp α)) (sg : Seg α) : Seg α :=
@@ -166,7 +203,7 @@ def hasAlive (sg : Seg α) : Bool := sg.docs.any (·.alive)
 matter (a dead document never comes back: `advance_deletes` intersects with the stored bitset),
 fresh cursor on the new, empty queue -/
 def reload (sg : Seg α) : Seg α :=
-  { sg with docs := sg.docs.filter (·.alive), cursor := 0 }
+  { sg with docs := sg.docs.filter (·.alive), cursor := 0, metaDead := 0 }
 
 def quiescent (s : WState α) : Bool :=
   s.channel.isEmpty && s.workers.all (fun w => w.seg.isNone) && s.inflight.isEmpty
@@ -191,7 +228,7 @@ if the next delete of the merged segment's cursor is older than the last commit,
 that commit -/
 def catchUp (log : List (DelOp α)) (committedOpstamp : Nat) (sg : Seg α) : Seg α :=
   match log[sg.cursor]? with
-  | some del => if del.op < committedOpstamp then advance log committedOpstamp sg else sg
+  | some del => if catchUpGuard del.op committedOpstamp then advance log committedOpstamp sg else sg
   | none => sg
 
 /-- `SegmentManager::end_merge` on one register -/
